@@ -256,6 +256,64 @@ def build() -> Check:
                 ck.ob("R4.join-after-stop", fn_construct(fi), bool(waits2) and all(any(g2.dominates(s_.idx, w_.idx) for s_ in stops2) for w_ in waits2),
                       f"`{ast.unparse(c)}` waits for the background loop without having told it to stop first", where=f"line {c.lineno}")
 
+    # R4 lock discipline: while a non-reentrant lock is held, (a) no externally supplied callback is invoked - it can do anything, including coming back
+    # for the same lock (a done-callback registered by the callee runs inline when the future is already finished) or blocking on the network -
+    # and (b) no method of the same object that takes the same lock is called. Either wedges the thread for good.
+    n_lock_blocks = 0
+    for ci_ in prog.classes.values():
+        init_ = ci_.methods.get("__init__")
+        if init_ is None:
+            continue
+        locks_, callbacks_ = set(), set()
+        params_ = {p_.arg for p_ in init_.node.args.args[1:]}
+        for st_ in ast.walk(init_.node):
+            if isinstance(st_, (ast.Assign, ast.AnnAssign)) and st_.value is not None:
+                for tg_ in ([st_.target] if isinstance(st_, ast.AnnAssign) else st_.targets):
+                    if isinstance(tg_, ast.Attribute) and isinstance(tg_.value, ast.Name) and tg_.value.id == "self":
+                        v_ = ast.unparse(st_.value)
+                        if v_ in ("threading.Lock()", "Lock()"):
+                            locks_.add(tg_.attr)
+                        if isinstance(st_.value, ast.Name) and st_.value.id in params_:
+                            ann_ = next((p_.annotation for p_ in init_.node.args.args if p_.arg == st_.value.id), None)
+                            if ann_ is not None and "Callable" in ast.unparse(ann_):
+                                callbacks_.add(tg_.attr)
+        if not locks_:
+            continue
+
+        def takes(mname, lock, seen=None):
+            seen = seen or set()
+            if mname in seen or mname not in ci_.methods:
+                return False
+            seen.add(mname)
+            for w_ in ast.walk(ci_.methods[mname].node):
+                if isinstance(w_, ast.With) and any(ast.unparse(i_.context_expr) == f"self.{lock}" for i_ in w_.items):
+                    return True
+                if isinstance(w_, ast.Call) and isinstance(w_.func, ast.Attribute) and isinstance(w_.func.value, ast.Name) and w_.func.value.id == "self" \
+                        and takes(w_.func.attr, lock, seen):
+                    return True
+            return False
+
+        for mname_, m_ in ci_.methods.items():
+            for w_ in ast.walk(m_.node):
+                if not isinstance(w_, ast.With):
+                    continue
+                held = [l_ for l_ in locks_ if any(ast.unparse(i_.context_expr) == f"self.{l_}" for i_ in w_.items)]
+                if not held:
+                    continue
+                n_lock_blocks += 1
+                for c_ in [x for b_ in w_.body for x in ast.walk(b_) if isinstance(x, ast.Call)]:
+                    if isinstance(c_.func, ast.Attribute) and isinstance(c_.func.value, ast.Name) and c_.func.value.id == "self":
+                        if c_.func.attr in callbacks_:
+                            ck.ob("R4.no-callback-under-lock", fn_construct(m_), False,
+                                  f"the supplied callback `self.{c_.func.attr}` is invoked while `self.{held[0]}` (non-reentrant) is held: whatever it reaches that needs "
+                                  "the same lock - e.g. a done-callback that runs inline - deadlocks this thread, and everybody else waits for the lock meanwhile",
+                                  where=f"line {c_.lineno}", cell=c_.func.attr)
+                        elif any(takes(c_.func.attr, l_) for l_ in held):
+                            ck.ob("R4.no-callback-under-lock", fn_construct(m_), False,
+                                  f"`self.{c_.func.attr}()` takes `self.{held[0]}` again while it is already held (threading.Lock is not reentrant)", where=f"line {c_.lineno}", cell=c_.func.attr)
+    ck.floor("lock_regions", n_lock_blocks, 8)
+    ck.ob("R4.no-callback-under-lock", "package", True, f"{n_lock_blocks} regions holding a threading.Lock scanned")
+
     # R5 timer -----------------------------------------------------------------------------------------
     ts = prog.cls("concurrency.executor", "TimerScheduler")
     tl = ts.methods.get("_timer_loop")
@@ -266,10 +324,26 @@ def build() -> Check:
     resub = g.find_calls("resubmit_callback")
     pops = [n for n in g.nodes if any(isinstance(c.func, ast.Attribute) and c.func.attr == "heappop" for c in g.calls_at(n))]
     ck.floor("timer_resubmits", len(resub), 1)
+    def established_before(r, sites):
+        """the resubmission is dominated by one of `sites`, or it resubmits a variable whose only non-None binding is (deferred hand-over:
+        `x = None ... x = popped ... if x is not None: resubmit(x)`)"""
+        if any(g.dominates(x.idx, r.idx) for x in sites):
+            return True
+        call = next((c for c in g.calls_at(r) if isinstance(c.func, ast.Attribute) and c.func.attr == "resubmit_callback"), None)
+        arg = call.args[0] if call is not None and call.args else None
+        if not isinstance(arg, ast.Name):
+            return False
+        binds = [n for n in g.nodes if isinstance(n.stmt, (ast.Assign, ast.AnnAssign)) and n.kind != "header" and n.stmt.value is not None
+                 and any(isinstance(t_, ast.Name) and t_.id == arg.id for t_ in ([n.stmt.target] if isinstance(n.stmt, ast.AnnAssign) else n.stmt.targets))]
+        real = [n for n in binds if not (isinstance(n.stmt.value, ast.Constant) and n.stmt.value.value is None)]
+        tested = any(n.kind == "header" and isinstance(n.stmt, ast.If) and ast.unparse(n.stmt.test).replace(" ", "") in (f"{arg.id}isnotNone", arg.id)
+                     and g.dominates(n.idx, r.idx) for n in g.nodes)
+        return bool(real) and tested and all(any(g.dominates(x.idx, b.idx) for x in sites) for b in real)
+
     for r in resub:
-        ck.ob("R5.reset-before-resubmit", fn_construct(tl), any(g.dominates(x.idx, r.idx) for x in resets),
+        ck.ob("R5.reset-before-resubmit", fn_construct(tl), established_before(r, resets),
               "a resumed branch is resubmitted without first being reset to PENDING (the suspend decision could fire in between)", where=g.loc(r))
-        ck.ob("R5.resubmit-only-popped-branch", fn_construct(tl), any(g.dominates(p.idx, r.idx) for p in pops), "resubmission not dominated by the heap pop", where=g.loc(r))
+        ck.ob("R5.resubmit-only-popped-branch", fn_construct(tl), established_before(r, pops), "resubmission not dominated by the heap pop", where=g.loc(r))
     return ck
 
 
